@@ -67,6 +67,13 @@ def cmd_setup(_args) -> int:
     return 0
 
 
+def _tree_hash() -> str:
+    parts = []
+    for p in sorted((C.REPO / "pyrefact").rglob("*.py")):
+        parts.append(p.read_bytes())
+    return C.sha(*parts)
+
+
 def violates(prop: str, batch: Dict[str, Any], violation: Dict[str, Any]) -> bool:
     """Is this violation class a clause of `prop`?  (Engines serve several properties.)"""
     props = violation.get("props")
@@ -85,6 +92,7 @@ def cmd_check(args) -> int:
     t0 = time.monotonic()
     _pin_cwd()
     C.import_pyrefact()
+    tree_before = _tree_hash()
     plan = plans.plan_for(prop, tier)
     if plan is None:
         print(f"HARNESS-ERROR no check for property {prop}")
@@ -203,6 +211,16 @@ def cmd_check(args) -> int:
         "known_finding_hits": stats.get("known_finding_hits", 0),
         "exhaustive": False,
     }
+    if _tree_hash() != tree_before:
+        # the sources under test changed while the check ran: subject, reference and memoised
+        # references may come from different versions - nothing of this run can be believed
+        import shutil
+
+        from . import e2_history
+
+        shutil.rmtree(e2_history.MEMO_ROOT, ignore_errors=True)
+        print("HARNESS-ERROR the tree under test changed during the run; reference memo purged, run again")
+        return C.EXIT_HARNESS
     C.write_evidence(prop, tier, base, coverage, wall, new_violations, assumptions=plan.get("assumptions", ()))
     print(
         f"{prop} tier={tier} seed={base} runs={evaluations} distinct_nontrivial={len(nontrivial_sigs)} "
